@@ -1690,6 +1690,8 @@ char* save_variable (svalue_t * var) {
 
   save_svalue_depth = 0;
   theSize = svalue_save_size (var);
+  if (theSize - 1 > (size_t)CONFIG_INT (__MAX_STRING_LENGTH__))
+    error ("save_variable: the saved text is longer than maximum string length.\n");
   new_str = new_string (theSize - 1, "save_variable");
   *new_str = '\0';
   p = new_str;
